@@ -26,7 +26,7 @@ def main():
             stopped = False
             if n > 0:
                 stopped = common.run_hypothesis(
-                    prop, tier, seed * 1000 + shard, n, col, time_budget_s=extra.get("budget_s")
+                    prop, tier, seed * 1000 + shard, n, col, time_budget_s=extra.get("budget_s"), skip_first=shard != 0
                 )
             if hasattr(prop, "extra"):
                 prop.extra(tier, seed, shard, nshards, col)
